@@ -45,7 +45,8 @@ func init() {
 		simsFor[p] = []simWeight{{"lib", 1}}
 	}
 	simsFor["C06"] = []simWeight{{"lib", 3}, {"cli", 1}}
-	simsFor["C05"] = []simWeight{{"lib", 1}}
+	register(crashSim{})
+	simsFor["C05"] = []simWeight{{"lib", 12}, {"clicrash", 1}}
 	register(cliSim{})
 	for _, p := range []string{"C08", "C09", "C10", "C11", "C18", "C20"} {
 		simsFor[p] = []simWeight{{"cli", 1}}
@@ -94,13 +95,17 @@ func loadSites() {
 		return
 	}
 	var ss []struct {
-		ID int `json:"id"`
+		ID   int    `json:"id"`
+		Func string `json:"func"`
+		Text string `json:"text"`
 	}
 	if json.Unmarshal(b, &ss) == nil {
 		for _, s := range ss {
 			if s.ID > nSites {
 				nSites = s.ID
 			}
+			siteFunc[s.ID] = s.Func
+			siteText[s.ID] = s.Text
 		}
 	}
 }
